@@ -501,6 +501,9 @@ func init() {
 			w.ib.SignatureStack[0].Signature = bytes.Repeat([]byte{6}, 64)
 		}},
 	}
+	muts = append(muts, op{name: "mutate: cert chain rebuilt over the same certificates with a refreshed OCSP response and no SCT list", ser: -1, mut: func(w *c18World) {
+		w.chain, _ = certurl.NewCertChain([]*x509.Certificate{fixtures.A.Leaf, fixtures.A.CA}, []byte("ocsp-response-refreshed"), nil)
+	}})
 	menu = append(menu, muts...)
 	// calls whose destination fails at the k-th Write (a client going away while an artifact is
 	// served): the failed call itself is C19's business; here it is a history step after which
@@ -866,6 +869,8 @@ func c18Affects(mut, ser string) bool {
 		return has("EncodeHeader", "Bundle.WriteTo")
 	case strings.HasPrefix(mut, "mutate: add header"), strings.HasPrefix(mut, "mutate: header VALUES"):
 		return has("EncodeHeader", "Bundle.WriteTo", "Exchange.Write", "DumpExchangeHeaders", "DumpSignedMessage")
+	case strings.HasPrefix(mut, "mutate: cert chain"):
+		return has("CertChain.Write")
 	case strings.HasPrefix(mut, "mutate: payload"):
 		return has("mice.Encode", "SignedSubset.Encode", "GenerateDataToBeSigned", "ParameterisedList.String", "IntegrityBlock.CborBytes")
 	}
